@@ -15,8 +15,15 @@ Bound == TLCGet("level") <= Depth
 Ended == vAct.res = "collide"
 \* C06 slice: assets are created first (NAssets of them), then constructions are attempted
 NAssets == atoi(EnvOr("VERIF_NASSETS", "2"))
-BuildFirst == \A i \in DOMAIN hist : /\ (i <= NAssets) = (hist[i].act.op = "AddAsset")
-                                      /\ hist[i].act.op \in {"AddAsset", "AddAssociation", "SetDefense"}
+\* VERIF_BUILDOPS=assoc: after the assets exist, every history of association edits (add, shrink, remove) and asset removals
+BuildOps == IF EnvOr("VERIF_BUILDOPS", "construct") = "assoc"
+            THEN {"AddAsset", "AddAssociation", "RemoveFromAssoc", "RemoveAssociation", "RemoveAsset"}
+            ELSE IF EnvOr("VERIF_BUILDOPS", "construct") = "atk"
+            THEN {"AddAsset", "AddAttacker", "RemoveAttacker", "AddEntryPoint", "RemoveEntryPoint", "RemoveAsset"}
+            ELSE {"AddAsset", "AddAssociation", "SetDefense"}
+BuildFirst == \A i \in DOMAIN hist : /\ (i <= NAssets => hist[i].act.op = "AddAsset")
+                                      /\ ((i > NAssets /\ hist[i].act.op = "AddAsset") => hist[i].act.h <= NAssets)   \* only re-adds later
+                                      /\ hist[i].act.op \in BuildOps
                                       /\ (hist[i].act.op = "AddAsset" => hist[i].act.allowDup)
 EmitOK == IF EnvOr("VERIF_BUILDFIRST", "0") = "1" THEN BuildFirst ELSE TRUE
 \* with VERIF_GRAPH=1 the attack graph the specification assigns to the FINAL model of the behaviour is emitted as well
